@@ -295,6 +295,7 @@ class AioConn:
         self.handler_done_seq: Optional[int] = None
         self.handler_exc: Optional[BaseException] = None
         self.sent_after_close = 0
+        self.peer_lost = False  # the client reset the connection / made writes fail
         loop = env.loop
         self.reader = asyncio.StreamReader(loop=loop)
         self.protocol = asyncio.StreamReaderProtocol(self.reader, loop=loop)
@@ -357,6 +358,7 @@ class AioConn:
         self.transport.feed_eof()
 
     def reset(self) -> None:
+        self.peer_lost = True
         self.log.add("creset", conn=self.cid)
         self.transport.peer_reset()
 
@@ -371,6 +373,7 @@ class AioConn:
         self.transport.client_accept_bytes(n)
 
     def fail_writes(self, after_n: int = 0) -> None:
+        self.peer_lost = True
         self.transport.fail_after = after_n
 
     @property
@@ -429,8 +432,13 @@ class AioEnv:
         return r
 
     async def settle(self, horizon: float = 1e6) -> str:
-        """Run until nothing is left to do (or `horizon` virtual seconds from now)."""
-        return await self.loop.run_until(self.loop.time() + horizon)
+        """Run until nothing is left to do or `horizon` virtual seconds have passed; the clock
+        ends at the horizon either way (as it does on the trio back end)."""
+        target = self.loop.time() + horizon
+        r = await self.loop.run_until(target)
+        if self.loop._vtime < target:
+            self.loop._vtime = target
+        return r
 
     async def set_terminated(self) -> None:
         await self.context.terminated.set()
